@@ -453,14 +453,28 @@ def entry_tree(rng, p, style):
     return dict(items)
 
 
-def write_tree(ctx, d, tree, files):
-    """tree = (label, children); files[label] = list of (group name, property-sets tree). Returns root path, driver file"""
+def write_tree(ctx, d, tree, files, nested=False, fname=None):
+    """tree = (label, children); files[label] = list of (group name, property-sets tree). Returns root path, driver file.
+    Flat layout: every file in one directory under its own name.  Nested layout: the k-th child of ANY file lives in the
+    sub-directory `p<k>` of its parent's directory and is always called `part.yaml`, so different files are included under
+    the same relative name from different directories (include paths are relative to the including file)."""
     label, children = tree
-    fname = 'library.yaml' if label == 'root' else '%s.yaml' % label
-    doc = {'units': {}, 'include': ['%s.yaml' % ch[0] for ch in children], 'groups': files[label]}
+    if fname is None:
+        fname = 'library.yaml' if label == 'root' else '%s.yaml' % label
+    if nested:
+        incs = ['p%d/part.yaml' % k for k in range(len(children))]
+    else:
+        incs = ['%s.yaml' % ch[0] for ch in children]
+    doc = {'units': {}, 'include': incs, 'groups': files[label]}
+    os.makedirs(d, exist_ok=True)
     L.write_file(os.path.join(d, fname), doc)
-    jf = {'units': [], 'groups': [[nm, L.jtree(ps)] for nm, ps in files[label]],
-          'include': [write_tree(ctx, d, ch, files)[1] for ch in children]}
+    sub = []
+    for k, ch in enumerate(children):
+        if nested:
+            sub.append(write_tree(ctx, os.path.join(d, 'p%d' % k), ch, files, True, 'part.yaml')[1])
+        else:
+            sub.append(write_tree(ctx, d, ch, files)[1])
+    jf = {'units': [], 'groups': [[nm, L.jtree(ps)] for nm, ps in files[label]], 'include': sub}
     return os.path.join(d, fname), jf
 
 
@@ -563,7 +577,9 @@ def check_splits(ctx, rng, n_wholes, batch):
             files2 = dict((ren[lab], files[lab]) for lab in labels)
             tree = label_tree(shape, ['root'] + ['f%d' % j for j in range(1, n)])
             d = L.new_dir(ctx, 'c13-')
-            path, jf = write_tree(ctx, d, tree, files2)
+            nested = rng.random() < 0.5
+            ctx.count('layout_nested' if nested else 'layout_flat')
+            path, jf = write_tree(ctx, d, tree, files2, nested)
             st, res = L.load_library(path)
             inp = {'mode': mode, 'names': names, 'tree': json.dumps(tree), 'files': dict((k, [[nm, L.jshow(ps)] for nm, ps in v])
                                                                                          for k, v in files2.items())}
